@@ -355,6 +355,37 @@ fn ops_agree<T: Ord + Copy + std::fmt::Debug>(x: T, y: T) {
     assert!(x.clamp(x.min(y), x.max(y)) == x, "clamp");
 }
 
+/// an open-ended iterator driven through `next` and through methods the Iterator trait
+/// provides on top of it (an impl may override any of them).  C, Z, X, W walk a clone to its
+/// end, so the generator uses them only within a few days of the range limit.
+fn iterx_run<I: Iterator<Item = Date> + Clone>(mut it: I, ops: &str) -> String {
+    let mut out: Vec<String> = Vec::new();
+    for o in ops.chars() {
+        match o {
+            'x' => out.push(show_opt_date(&it.next())),
+            'n' => out.push(show_opt_date(&it.nth(1))),
+            'm' => out.push(show_opt_date(&it.nth(5))),
+            'k' => out.push(show_opt_date(&it.nth(40))),
+            'S' => {
+                let mut sb = it.by_ref().step_by(7);
+                out.push(show_opt_date(&sb.next()));
+                out.push(show_opt_date(&sb.next()));
+            }
+            'C' => out.push(format!("c{}", it.clone().count())),
+            'Z' => out.push(show_opt_date(&it.clone().last())),
+            'X' => out.push(show_opt_date(&it.clone().max())),
+            'W' => out.push(show_opt_date(&it.clone().min())),
+            'H' => {
+                let (lo, hi) = it.size_hint();
+                let n = it.clone().take(100).count();
+                out.push(format!("h{}", b01(lo <= n && hi.map_or(true, |h| n <= h || n == 100))));
+            }
+            _ => {}
+        }
+    }
+    join(&out, " ")
+}
+
 fn hist_step(d: &Date, op: &str) -> Result<Date, String> {
     let c = d.calendar();
     match op {
@@ -657,28 +688,12 @@ fn answer_lib(line: &str) -> String {
             let c = cal!(ct);
             let j: i32 = p!(j.parse().ok());
             let d = c.at_jdn(j);
-            let mut it: Box<dyn Iterator<Item = Date>> = match *k {
-                "later" => Box::new(d.later()),
-                "earlier" => Box::new(d.earlier()),
-                "and_later" => Box::new(d.and_later()),
-                _ => Box::new(d.and_earlier()),
-            };
-            let mut out: Vec<String> = Vec::new();
-            for o in ops.chars() {
-                match o {
-                    'x' => out.push(show_opt_date(&it.next())),
-                    'n' => out.push(show_opt_date(&it.nth(1))),
-                    'm' => out.push(show_opt_date(&it.nth(5))),
-                    'k' => out.push(show_opt_date(&it.nth(40))),
-                    'S' => {
-                        let mut sb = it.by_ref().step_by(7);
-                        out.push(show_opt_date(&sb.next()));
-                        out.push(show_opt_date(&sb.next()));
-                    }
-                    _ => {}
-                }
+            match *k {
+                "later" => iterx_run(d.later(), ops),
+                "earlier" => iterx_run(d.earlier(), ops),
+                "and_later" => iterx_run(d.and_later(), ops),
+                _ => iterx_run(d.and_earlier(), ops),
             }
-            join(&out, " ")
         }
         ["cmp_date", c1, j1, c2, j2] => {
             let a = cal!(c1);
